@@ -125,6 +125,7 @@ class Chip:
         self.rpd = 0
         self.carrier = False
         self.last_status = 0x0E
+        self.fifo_overflows = 0
         self.role_change_ce_high = []  # times at which PRIM_RX was toggled while CE was high
 
     # ------------------------------------------------------------------ derived values
@@ -499,6 +500,7 @@ class Chip:
             return False
         self.rpd = 1
         if len(self.rxf) >= 3:
+            self.fifo_overflows += 1  # datasheet: a packet arriving at a full RX FIFO is discarded (and not acknowledged)
             return False
         if not pkt.legacy:
             dyn = self.pipe_dyn(pipe)
